@@ -116,6 +116,38 @@ def magic_authenticator(sock):
     return sock, "authenticated:%r" % (who,)
 
 
+def detaching_authenticator(sock):
+    """like a TLS authenticator: the socket object it returns is a NEW object that took over the descriptor (the accepted one
+    is detached, exactly what ssl's wrap_socket does)"""
+    sock, creds = magic_authenticator(sock)
+    new = socket.socket(sock.family, sock.type, sock.proto, fileno=sock.detach())
+    return new, creds
+
+
+class PollSpy(object):
+    """wraps a server's poll object and remembers which descriptors are registered with it"""
+
+    def __init__(self, real):
+        self._real = real
+        self.registered = set()
+        self.calls = 0
+
+    def register(self, fd, mode):
+        self._real.register(fd, mode)
+        self.registered.add(fd)
+
+    def unregister(self, fd):
+        self.registered.discard(fd)
+        self._real.unregister(fd)
+
+    def modify(self, fd, mode):
+        self._real.modify(fd, mode)
+
+    def poll(self, timeout=None):
+        self.calls += 1
+        return self._real.poll(timeout)
+
+
 def _die_with_parent():
     """Linux: deliver SIGKILL to this process when its parent dies (no orphans holding sockets or pipes)"""
     try:
@@ -259,13 +291,17 @@ class Fixture(object):
         else:
             cls = {"threaded": S.ThreadedServer, "pool": S.ThreadPoolServer, "oneshot": S.OneShotServer}[kind]
             self.Svc = make_service(self.events, slow_disconnect, slow_init)
-            kw = dict(logger=_quiet, auto_register=False, authenticator=magic_authenticator if auth else None, listener_timeout=0.05)
+            kw = dict(logger=_quiet, auto_register=False, listener_timeout=0.05,
+                      authenticator=(detaching_authenticator if auth == "detach" else magic_authenticator) if auth else None)
             if kind == "pool":
                 kw["nbThreads"] = 4
             if self.socket_path:
                 self.server = cls(self.Svc, socket_path=self.socket_path, **kw)
             else:
                 self.server = cls(self.Svc, hostname="127.0.0.1", port=0, **kw)
+            self.pollspy = None
+            if kind == "pool":
+                self.pollspy = self.server.poll_object = PollSpy(self.server.poll_object)
             self.thread = self.server._start_in_thread()
             self.port = self.server.port
         self.closed = False
